@@ -54,6 +54,9 @@ pub enum Op {
     /// datagrams of mixed sizes: four of a fifth of the buffer, then one of three fifths
     /// (expands to five DATAGRAM frames; the newcomer needs more room than one eviction frees)
     DFill,
+    /// the peer keeps sending on a stream the application has stopped (it has not seen
+    /// STOP_SENDING yet): a little data, local stop, then data up to the stream limit
+    StopMore(u8),
 }
 
 fn expand(l: &Lim, op: &Op) -> Vec<Op> {
@@ -65,6 +68,10 @@ fn expand(l: &Lim, op: &Op) -> Vec<Op> {
         Op::Whole(slot) => {
             let h = l.stream_window / 2;
             vec![Op::S(*slot, 0, h, false), Op::Read(*slot, usize::MAX), Op::S(*slot, h, 5, true), Op::Read(*slot, usize::MAX)]
+        }
+        Op::StopMore(slot) => {
+            let sw = l.stream_window;
+            vec![Op::S(*slot, 0, 10, false), Op::Stop(*slot), Op::S(*slot, sw - 10, 10, false)]
         }
         o => vec![o.clone()],
     }
@@ -121,6 +128,8 @@ pub fn alphabet(l: &Lim) -> Vec<Op> {
     }
     v.push(Op::Whole(0));
     v.push(Op::Whole(1));
+    v.push(Op::StopMore(0));
+    v.push(Op::StopMore(1));
     v.push(Op::S(0, l.recv_window.min(sw) / 2, l.recv_window.min(sw) / 2, false));
     v.push(Op::D(10));
     v.push(Op::D(l.dgram_buf));
@@ -518,7 +527,7 @@ pub fn run_seq(base: Instant, l: &Lim, vs: bool, seq: &[Op], dump: bool) -> Resu
                     p.w.settle_conn(victim, vch);
                     m.conc_max[1] = m.conc_max[1].max(*n);
                 }
-                Op::Whole(_) | Op::DFill => unreachable!("expanded before execution"),
+                Op::Whole(_) | Op::DFill | Op::StopMore(_) => unreachable!("expanded before execution"),
                 Op::RecvDgram => {
                     let mut sizes = vec![];
                     {
@@ -640,7 +649,7 @@ pub fn main(args: &Args) -> ! {
         let mut idx = vec![0usize; depth];
         loop {
             let seq: Vec<&Op> = idx.iter().map(|i| &a[*i]).collect();
-            let has_frame = seq.iter().any(|o| matches!(o, Op::S(..) | Op::R(..) | Op::D(..) | Op::C(..) | Op::Whole(..) | Op::DFill));
+            let has_frame = seq.iter().any(|o| matches!(o, Op::S(..) | Op::R(..) | Op::D(..) | Op::C(..) | Op::Whole(..) | Op::DFill | Op::StopMore(..)));
             // a sequence that starts with a local operation on nothing (read / stop of a stream that does
             // not exist yet, recv on an empty datagram queue) is the sequence of its remaining operations,
             // which is enumerated anyway as the prefix of others
